@@ -138,6 +138,9 @@ impl<'p> Write for FaultyWriter<'p> {
         let k = self.calls;
         self.calls += 1;
         if self.calls > 100_000 {
+            if self.calls > 400_000 {
+                panic!("write side does not terminate");
+            }
             return Err(io::Error::new(io::ErrorKind::Other, "write call cap exceeded"));
         }
         if self.dead {
@@ -206,6 +209,9 @@ impl<'a> Read for FaultyReader<'a> {
         let k = self.calls;
         self.calls += 1;
         if self.calls > 1_000_000 {
+            if self.calls > 4_000_000 {
+                panic!("read side does not terminate");
+            }
             return Err(io::Error::new(io::ErrorKind::Other, "read call cap exceeded"));
         }
         if self.eintr_every > 0 && (k + 1) % self.eintr_every == 0 {
@@ -673,6 +679,12 @@ pub fn run_json<T: Subject>(plan: &JPlan, opts: RunOpts) -> Outcome {
     out.jstats.escaped_keys = plan.escape_keys;
     out.jstats.reader = plan.reader as u8;
     let wfaulted = werr.is_some();
+    if let Err(e) = &wres {
+        if e.contains("does not terminate") {
+            eval!("AR");
+            fail!("AR", "to_writer did not return although every write call was failing ({})", e);
+        }
+    }
 
     // what a std value of each leaf's kind would read back from serde_json's own text for it
     let echo: Vec<u64> = kinds.iter().zip(m.iter()).map(|(k, b)| json_echo(*k, *b)).collect();
